@@ -225,7 +225,16 @@ func assignOne(destValue reflect.Value, taken any, to string) (reflect.Value, er
 		originalDestValue = destValue
 		parentMap         reflect.Value
 		parentKey         string
+		writeBacks        []func()
 	)
+
+	// structs held by value in a map are not addressable: they are modified on a copy, which is
+	// stored back (innermost first) once the assignment below them is done
+	defer func() {
+		for i := len(writeBacks) - 1; i >= 0; i-- {
+			writeBacks[i]()
+		}
+	}()
 
 	for {
 		path := toPaths[0]
@@ -302,6 +311,15 @@ func assignOne(destValue reflect.Value, taken any, to string) (reflect.Value, er
 			if !valueValue.IsValid() {
 				valueValue = newInstanceByType(destValue.Type().Elem())
 				destValue.SetMapIndex(keyValue, valueValue)
+			} else if valueValue.Kind() == reflect.Struct {
+				elem := reflect.New(valueValue.Type()).Elem()
+				elem.Set(valueValue)
+				valueValue = elem
+			}
+
+			if valueValue.Kind() == reflect.Struct {
+				m, k, v := destValue, keyValue, valueValue
+				writeBacks = append(writeBacks, func() { m.SetMapIndex(k, v) })
 			}
 
 			if parentMap.IsValid() {
